@@ -39,10 +39,14 @@ func (s *section) add(c kase) { s.cases = append(s.cases, c) }
 func (s *section) run(drv *lib.Driver) {
 	lines := make([]string, len(s.cases))
 	for i, c := range s.cases {
-		lines[i] = c.Line()
+		if s.tie != nil {
+			lines[i] = c.Line()
+		}
 	}
 	var answers []string
-	if drv != nil {
+	if s.tie == nil {
+		// a family without a model side (par/mix: the answers are compared with the code's own solo answers)
+	} else if drv != nil {
 		var err error
 		answers, err = drv.Batch(lines)
 		if err != nil {
@@ -60,11 +64,13 @@ func (s *section) run(drv *lib.Driver) {
 		if s.compare != nil && s.compare(model, code) {
 			model = code // equal up to the section's stated tolerance
 		}
-		if drv != nil {
+		if drv != nil && s.tie != nil {
 			s.tie.Record(c.Key(), c.NonTrivial(), c, model, code)
 		}
 		for _, b := range c.Buckets() {
-			s.tie.Count(b)
+			if s.tie != nil {
+				s.tie.Count(b)
+			}
 			s.mon.Count(b)
 		}
 		s.mon.Eval(c.Key(), c.NonTrivial(), nil)
@@ -87,8 +93,17 @@ func main() {
 		defer drv.Close()
 	}
 	rng := lib.NewRand(f.Seed)
+	debug := func(s *section) {
+		if os.Getenv("C20_DEBUG") != "" {
+			log.SetFlags(log.Lmicroseconds)
+			log.Println("section", s.name)
+		}
+	}
 	for _, build := range builders {
 		for _, s := range build(f, res, rng) {
+			if mixable[s.name] {
+				mixPool[s.name] = s.cases
+			}
 			if only := os.Getenv("C20_ONLY"); only != "" && !strings.HasPrefix(s.name, only) {
 				continue // development aid: run one section (the generator still consumed its share of the PRNG)
 			}
@@ -98,6 +113,11 @@ func main() {
 			}
 			s.run(drv)
 		}
+	}
+	if only := os.Getenv("C20_ONLY"); only == "" || strings.HasPrefix("par/mix", only) {
+		s := mixSection(f, res)
+		debug(s)
+		s.run(drv)
 	}
 	if err := res.Write(f.Out); err != nil {
 		lib.Fatal(err)
